@@ -206,21 +206,21 @@ type storeRec struct {
 
 // Tracer answers location queries for the functions of one closure.
 type Tracer struct {
-	P       *Prog
-	X       *Closure
-	G       *callgraph.Graph
-	callees calleeIndex
-	callers map[*ssa.Function][]ssa.CallInstruction
-	roots   map[ssa.Value]map[RootKind]*Root
-	memo    map[ssa.Value]LocSet
-	memoL   map[Loc]LocSet
-	round   int
-	doneV   map[ssa.Value]int
-	doneL   map[Loc]int
-	grew    bool
-	stores  []*storeRec
-	makeClo map[*ssa.Function][]*ssa.MakeClosure
-	retsOf  map[*ssa.Function][]*ssa.Return
+	P         *Prog
+	X         *Closure
+	G         *callgraph.Graph
+	callees   calleeIndex
+	callers   map[*ssa.Function][]ssa.CallInstruction
+	roots     map[ssa.Value]map[RootKind]*Root
+	memo      map[ssa.Value]LocSet
+	memoL     map[Loc]LocSet
+	round     int
+	doneV     map[ssa.Value]int
+	doneL     map[Loc]int
+	grew      bool
+	stores    []*storeRec
+	makeClo   map[*ssa.Function][]*ssa.MakeClosure
+	retsOf    map[*ssa.Function][]*ssa.Return
 	Undecided []string
 }
 
